@@ -5,6 +5,7 @@ number of error-abandoned function literals) and over every value of MaxLocalVar
 -/
 import NV.C02.LemmasLI
 import NV.C02.LemmasMem
+import NV.C02.LemmasPad
 
 namespace NV.C02
 
@@ -97,6 +98,33 @@ example : scanWrites 1 3 = [0, 1, 2, 3, 4] := by decide
 example : scanFrom savecBound.toNat 7 = [savecBound.toNat] ∧ scanFrom (savecBound.toNat - 1) 7 = [savecBound.toNat - 1, savecBound.toNat] := by
   decide
 
+/-- **scratch_writes_in_bounds** — whatever sequence of scratchpad operations the lexer and the grammar perform
+    (strings pushed by scratch_copy / scratch_alloc / scratch_copy_string / the string scanner, frees of the last
+    string with any number of already freed strings below it, reallocs, joins, interior frees, malloc'ed blocks,
+    destroys), the pad cursors stay inside `scratchblock[SCRATCHPAD_SIZE]`: `2 ≤ scr_last ≤ scr_tail ≤ SIZE - 1` (the
+    length byte is written at `scr_tail`), the strings stay stacked without gaps, and the model's bounds checks
+    never fire.  As the statement holds for every event list, it holds after every prefix, i.e. at every step. -/
+theorem scratch_writes_in_bounds (evs : List Ev) :
+    let p := (runPad Pad.init evs).1
+    p.oob = false ∧ 2 ≤ p.last ∧ p.last ≤ p.tail ∧ p.tail ≤ scratchpadSize - 1 := by
+  intro p
+  have h : PadInv p := by
+    simp only [p, runPad, runPad_fst]
+    exact runPad_inv evs Pad.init padInv_init
+  refine ⟨h.noOob, ?_, ?_, ?_⟩
+  · rw [pad_last_eq]; exact lastOf_ge_two _ h.stacked
+  · rw [pad_last_eq, pad_tail_eq]; exact lastOf_le_tailOf _
+  · rw [pad_tail_eq]; exact h.fits
+
+example : (runPad Pad.init [.scrAlloc 5, .scrAlloc 200, .scrAlloc 300, .scrFreeLast 0, .scrAlloc 3]).1.tail = 12
+    ∧ (runPad Pad.init [.scrAlloc 5, .scrAlloc 200, .scrAlloc 300]).1.large = 1 := by decide
+
+/-- **scratch_empty_after_destroy** — `scratch_destroy()` (run by epilog and clean_parser) leaves the scratchpad in
+    its initial state, whatever was on it: no strings, no malloc'ed blocks, cursors at `&scratchblock[2]`. -/
+theorem scratch_empty_after_destroy (evs : List Ev) :
+    (runPad Pad.init (evs ++ [.scrDestroy])).1 = Pad.init := by
+  simp only [runPad, runPad_fst, List.foldl_append, List.foldl_cons, List.foldl_nil, stepPad, Pad.init]
+
 /-- **idents_restored** — the "compiler stays reusable" clause at model level, for every name space of every
     identifier.  After the end-of-compile cleanup (`clean_up_locals()` + `free_unused_identifiers()`, which both `epilog`
     and `clean_parser` run), whatever events preceded it — any mix of local declarations, function / global variable /
@@ -172,6 +200,7 @@ theorem locals_reset_after_cleanup (N : Nat) (evs : List Ev) :
         | popN n => rw [shape_popN l0 n h0]
         | freeAll => rw [shape_freeAll l0 h0]
         | cleanup => rw [shape_cleanup l0 h0]
+        | fnReset => rw [shape_fnReset l0 h0]
         | enterLit =>
           simp only [stepLoc, h0.notBad, Bool.false_eq_true, if_false]
           split <;> split <;> simp [Loc.crash]
@@ -192,5 +221,51 @@ theorem locals_reset_after_cleanup (N : Nat) (evs : List Ev) :
       exact this
   have := key evs (Loc.init N) (locInv_init N)
   simpa [Loc.init] using this
+
+
+/-! ## the oracle rejects what it should (negative examples, one group per clause of `judge` / `judgeEv`) -/
+
+-- cursor / allocation clause
+example : judgeEv [Out.ev "local.type" 51 50] ≠ [] := by decide
+example : judgeEv [Out.ev "local.pop" (-1) 25] ≠ [] := by decide
+example : judgeEv [Out.ev "inc.push" 32 31] ≠ [] := by decide
+example : judgeEv [Out.ev "mem.alloc" 4097 4096] ≠ [] := by decide
+example : judgeEv [Out.ev "mem.req" numAreas 8] ≠ [] := by decide      -- block number outside NUMAREAS
+example : judgeEv [Out.ev "lex.start.fnflag" 1 0] ≠ [] := by decide    -- function_flag leaked into the next file
+example : judgeEv [Out.ev "fnctx.pop" (-1) 10] ≠ [] := by decide
+-- identifier clauses
+example : judgeEv [Out.identEnd "write" 1 (-1) (-1) (-1) (-1)] ≠ [] := by decide
+example : judgeEv [Out.identEnd "write" 0 (-1) 0 (-1) (-1)] ≠ [] := by decide      -- stale global_num
+example : judgeEv [Out.identEnd "time" 0 (-1) (-1) 2 (-1)] ≠ [] := by decide       -- stale class_num
+example : judgeEv [Out.identEnd "time" 0 (-1) (-1) (-1) 3] ≠ [] := by decide       -- stale local_num
+example : judgeEv [Out.identEnd "time" (-1) (-1) (-1) (-1) (-1)] ≠ [] := by decide -- sem_value dropped
+example : judgeEv [Out.identClean "write" 1] ≠ [] := by decide
+example : judgeEv [Out.identBind "fn" (-1) 1 "f" false (-1) 0] ≠ [] := by decide
+example : judgeEv [Out.ident (-1) 1 "x" false (-1) 0] ≠ [] := by decide
+-- locals reset clause
+example : judgeEv [Out.localsEnd 1 1 0 0] ≠ [] := by decide
+example : judgeEv [Out.localsEnd 0 0 3 0] ≠ [] := by decide
+example : judgeEv [Out.localsEnd 0 0 0 7] ≠ [] := by decide
+-- scratchpad clause
+example : judgeEv [Out.scr "scr.push" 4096 4095 4000 0 none] ≠ [] := by decide    -- length byte outside the pad
+example : judgeEv [Out.scr "scr.after" 1 4095 1 0 none] ≠ [] := by decide         -- walked below &scratchblock[2]
+example : judgeEv [Out.scr "scr.after" 5 4095 9 0 none] ≠ [] := by decide         -- last above tail
+example : judgeEv [Out.scrEnd 3 9 0] ≠ [] := by decide                           -- strings left on the pad after the compile
+example : judgeEv [Out.scrEnd 2 2 1] ≠ [] := by decide                           -- malloc'ed block leaked
+-- crash clause
+example : judgeEv [Out.crash "anything"] ≠ [] := by decide
+-- whole-trace clauses
+example : judge [.result ["none"]] ≠ [] := by decide
+example : judge [.crashLine "crash timeout"] ≠ [] := by decide
+example : judge [.crashLine "sanitizer ERROR: AddressSanitizer: heap-buffer-overflow"] ≠ [] := by decide
+-- (the probe clauses compare strings; they are checked by evaluation, `decide` does not reduce String.startsWith)
+#guard judge [.probe "aaaa size=1", .probe "bbbb size=1"] != []
+#guard judge [.probe "aaaa size=1", .probe "FAIL errors=1 thrown=0"] != []
+#guard judge [.probe "FAIL errors=1 thrown=0", .probe "FAIL errors=1 thrown=0"] != []
+example : judge [.aprobeDiff "aprobe-differs write r fresh=[errors 1] after=[prog x]"] ≠ [] := by decide
+example : judge [.baseOdd "ident.base-odd write fn=-1 glob=0 cls=-1 local=-1"] ≠ [] := by decide
+-- and accepts a clean trace
+#guard judge [.cfg 25, .out (.ev "local.type" 1 25), .out (.localsEnd 0 0 0 0), .result ["prog"],
+              .probe "aaaa", .probe "aaaa"] == []
 
 end NV.C02
